@@ -7,7 +7,7 @@ export GOFLAGS=-mod=mod GOPROXY=off GOSUMDB=off GOTOOLCHAIN=local
 mode=$1; N=${2:-6}
 ids=$(python3 -c "import json; print(' '.join(c['property_id'] for c in json.load(open('/verif/MANIFEST.json'))['checks']))")
 # mode "cross": every check on every seeded change (which other properties' checks fire, and why)
-if [ "$mode" = refactors ]; then list=$(ls -d /verif/refactors/${ONLY:-}*/); else list=$(ls -d ${SEEDDIR:-/verif/seeded}/${ONLY:-}*/); fi
+if [ "$mode" = refactors ]; then list=$(ls -d ${REFDIR:-/verif/refactors}/${ONLY:-}*/); else list=$(ls -d ${SEEDDIR:-/verif/seeded}/${ONLY:-}*/); fi
 out=/tmp/par_corpus_$mode; rm -rf $out; mkdir -p $out
 worker() {
   i=$1; wt=/tmp/wt/par$i; sc=/tmp/verif_scratch_par$i; mkdir -p $sc; cp /verif/known_findings.json $sc/
